@@ -309,8 +309,12 @@ func (env *Env) evalSelector(x *ast.SelectorExpr) Val {
 		if id.Name == "ghost" {
 			return fc.ghostGet(env.st, x.Sel.Name)
 		}
-		// imported package?
-		if _, isVar := env.vars[id.Name]; !isVar {
+		// imported package? (locals, parameters and bound variables shadow package names)
+		isLocal := false
+		if env.local != nil {
+			_, isLocal = env.local(id.Name)
+		}
+		if _, isVar := env.vars[id.Name]; !isVar && !isLocal {
 			if _, isBound := env.bound[id.Name]; !isBound {
 				if pkg := fc.eng.importedPkg(env.pkg, id.Name); pkg != nil {
 					obj := pkg.Scope().Lookup(x.Sel.Name)
